@@ -6,7 +6,7 @@ mutation/triage_manual.tsv (name <tab> class <tab> note) take precedence."""
 import os
 M = '/verif/mutation'
 rows = {}
-for fn in ('pass1.tsv', 'pass2.tsv', 'pass3.tsv', 'pass4.tsv'):
+for fn in sorted(x for x in os.listdir(M) if x.startswith('pass') and x.endswith('.tsv')):
     p = os.path.join(M, fn)
     if os.path.exists(p):
         for l in open(p):
